@@ -21,8 +21,9 @@ RULES = {
     'R8': 'the client disconnect refreshes its liveness knowledge (a call that can clear is_connected) before the transport destructor chooses between plain and forced close',
     'R9': 'the client is never told to try again by a dead server: in qb_ipcc_send, qb_ipcc_sendv and qb_ipcc_sendv_recv every return that can be -EAGAIN (flow control on, request queue full) comes from a call that consults the liveness socket (reaches qb_ipc_us_ready) - a killed server leaves flow control on and the queue full for ever; and once the disconnect is known (is_connected false) qb_ipcc_recv does not wait',
     'R10': 'descriptor 0 is a descriptor: no teardown or cleanup path of the transports decides whether a socket is open by comparing it with > 0 (the server\'s accept() returns 0 when stdin is closed; skipping it leaves its poll entry behind, and the entry outlives the connection), and the client\'s connect cleanup closes a socket only where it is known to have been opened (>= 0, after being preset to -1) - it used to close(0) for sockets it had never opened',
+    'R11': 'what is not a disconnect is not taken for one (is_connected, once cleared, stays cleared and the client then no longer waits): qb_ipc_us_sock_error_is_disconnected, evaluated for each error code, answers no for the transient results - EAGAIN, ETIMEDOUT, EINTR, EMSGSIZE, ENOMSG, EINVAL and ENOBUFS (the caller\'s receive buffer is too small for the message that is waiting) - and yes for ENOTCONN, ECONNRESET, EPIPE, ESHUTDOWN, EBADF',
 }
-FLOORS = {'R1': 9, 'R2': 10, 'R3': 6, 'R4': 7, 'R5': 5, 'R6': 3, 'R7': 2, 'R8': 2, 'R9': 7, 'R10': 3}
+FLOORS = {'R1': 9, 'R2': 10, 'R3': 6, 'R4': 7, 'R5': 5, 'R6': 3, 'R7': 2, 'R8': 2, 'R9': 7, 'R10': 3, 'R11': 12}
 
 POLLNVAL, POLLHUP, POLLIN = 0x20, 0x10, 0x1
 
@@ -38,6 +39,7 @@ def run(ctx):
     r8(ctx)
     r9(ctx)
     r10(ctx)
+    r11(ctx)
 
 
 def _scenario(f, init, tracked, mark_call, start=None, effect=None):
@@ -680,3 +682,21 @@ def r10(ctx):
         ctx.check('R10', 'client-connect-cleanup-closes-what-it-opened:%s' % want.split('->')[-1], ok, ev,
                   '%s is preset to -1 before anything can fail and closed only when >= 0' % want,
                   'the cleanup of a failed qb_ipcc_us_connect closes %s whether or not it was opened: the field is zero-initialised, so an early failure closes descriptor 0 of the application' % want)
+
+
+def r11(ctx):
+    prog = ctx.prog
+    f = prog.fn('qb_ipc_us_sock_error_is_disconnected')
+    p = f.params[0]['n']
+    import errno as E
+    NO = {'EAGAIN': E.EAGAIN, 'ETIMEDOUT': E.ETIMEDOUT, 'EINTR': E.EINTR, 'EMSGSIZE': E.EMSGSIZE, 'ENOMSG': E.ENOMSG, 'EINVAL': E.EINVAL, 'ENOBUFS': E.ENOBUFS}
+    YES = {'ENOTCONN': E.ENOTCONN, 'ECONNRESET': E.ECONNRESET, 'EPIPE': E.EPIPE, 'ESHUTDOWN': E.ESHUTDOWN, 'EBADF': E.EBADF}
+    for (want, table) in ((0, NO), (1, YES)):
+        for name, val in sorted(table.items()):
+            visits, terms = abstract_run(f, {p: -val}, tracked={p})
+            rets = {cval(unwrap(ev.e)) if ev.e is not None else None for (ev, _env) in visits if ev.kind == 'RETURN'}
+            ok = bool(rets) and all(r is not None and (r != 0) == bool(want) for r in rets)
+            ctx.check('R11', 'is_disconnected(-%s)=%s' % (name, 'yes' if want else 'no'), ok, f, '-%s is %sa disconnect' % (name, '' if want else 'not '),
+                      '-%s is classified as %s: %s' % (name, 'a disconnect' if not want else 'transient',
+                                                       'one receive into a buffer that is too small marks a working connection as gone for good, and every later '
+                                                       'qb_ipcc_recv that has to wait returns -ENOTCONN' if name == 'ENOBUFS' else 'the state of the connection is misjudged'))
